@@ -210,9 +210,25 @@ class RefFit:
             return integ * self.n_entries if self.hist_density else integ
         return self.model.f(self.d, p)  # unbinned: density at the data points
 
+    slope_delta = None  # optional additive perturbation of the slope (used to bound finite-difference errors)
+
     def slope(self, p=None):
         p = self.p if p is None else np.asarray(p, dtype=float)
-        return self.model.dfdx(self.x, p)
+        g = self.model.dfdx(self.x, p)
+        if self.slope_delta is not None:
+            g = g + self.slope_delta
+        return g
+
+    def slope_fd_error_bound(self, p=None, rel_step=0.01):
+        """Bound of |central difference - analytic slope| for step h_i = rel_step * sigma_x,i:
+        h^2/6 * max|f3| on [x-h, x+h] (f3 = third derivative, sampled at 9 points, factor 2 safety)."""
+        p = self.p if p is None else np.asarray(p, dtype=float)
+        sx = np.sqrt(np.diag(self.axis_cov("x", p)))
+        h = rel_step * sx
+        m3 = np.zeros(self.n)
+        for t in np.linspace(-1.0, 1.0, 9):
+            m3 = np.maximum(m3, np.abs(self.model.d3fdx3(self.x + t * h, p)))
+        return 2.0 * h**2 / 6.0 * m3
 
     # -- uncertainties
     def ref_values(self, src, p):
